@@ -23,7 +23,7 @@ INFO = {
                   'dawgie.Value.__getstate__/__setstate__'],
     'bounds': {
         'quick': 'contents distinct per update, and a second family with contents repeating across runs/targets (shared blobs); 3 authors (ta.a, ta.a2, tb.a), targets T1/T2, run ids {1,2,10} (+99 requested but never stored), histories of <=3 operations from 18 kinds, 24 loads after each',
-        'thorough': 'same world, histories of <=4 operations',
+        'thorough': 'same world, histories of <=4 operations whose first operation is an update of author ta.a (all 18 kinds afterwards)',
     },
     'assumptions': [
         'tables are dicts installed in the DBI singleton; the blob store and staging area are an in-memory file system; md5sum/sha1sum answered with hashlib',
@@ -46,7 +46,7 @@ def obligations(tier):
         if tier == 'quick':
             out.append(ob.make(f'k{k}-{first}', 'hist', 'vp.harness.c06:body', sig, pre, f"{{'k': {k}, 'sel': [{first}, {', '.join(free)}]}}", timeout=900))
         else:
-            for second in range(n):
+            for second in range(n if first < 4 else 0):
                 out.append(ob.make(f'k{k}-{first}.{second}', 'hist', 'vp.harness.c06:body', ', '.join(f'{v}: int' for v in free[1:]), [' and '.join(f'0 <= {v} < {n}' for v in free[1:])],
                                    f"{{'k': {k}, 'sel': [{first}, {second}, {', '.join(free[1:])}]}}", timeout=3000))
     # same world with contents that repeat across runs and targets (shared blobs)
